@@ -586,6 +586,306 @@ def register_astnode(R):
 
 
 # ===========================================================================
+# Part 3a: the CHARACTER LEVEL of the Lexer over an abstract character stream (pyvc/ext_C15_text.py): symbolic text ch[0..N),
+# symbolic cursor; TextIOBase.read(1) / readline() are the two named io models.  State vocabulary:
+#     p = number of characters handed out by the reader,  next_char = '' or the character just before the cursor,
+#     q = p - len(next_char) = index of the look-ahead character (N at the end of the text).
+# The format (written here from the property text): blanks " \t\n" separate words; each of ( ) | is a word of its own; ';'
+# starts a comment that runs to the end of the line; every other maximal run of non-delimiters is a word; a word is a number
+# iff it is a decimal number in its entirety.
+BLANKS = " \t\n"
+DELIMS = " \t\n();|"
+LEX = f"{ASC}:Lexer."
+
+
+def lexer_obj(S):
+    from pyvc import ext_C15_text as T
+    from swcgeom.transforms.neurolucida_asc import Lexer
+
+    r = T.CharStream(S.int("rpos").z)
+    S.assume(T.NCH >= 0)
+    return S.obj(Lexer, r=r, lineno=S.int("lineno"), column=S.int("column"), next_char=T.SStr.fresh(S.eng, "next_char"))
+
+
+def lexer_sym_setup(S):
+    me = lexer_obj(S)
+    return dict(self=me, __ghost__=dict(reader=me.fields["r"], **LEXGHOST))
+
+
+def lx(v, who="self"):
+    """(p, lo, hi) of a Lexer state: reader cursor and the slice held by next_char"""
+    from pyvc import ext_C15_text as T
+
+    me = v[who]
+    sl = T.as_slice(me.fields["next_char"])
+    if sl is None:
+        raise X.Unsupported("Lexer.next_char is not one piece of the text")
+    return me.fields["r"].pos, sl[0], sl[1]
+
+
+def la(v, who="self"):
+    """index of the look-ahead character"""
+    p, lo, hi = lx(v, who)
+    return p - (hi - lo)
+
+
+def _remaining_chars(eng, args, kwargs):
+    from pyvc import ext_C15_text as T
+
+    return Sym(T.NCH - la({"self": args[0]}), "int")
+
+
+LEXGHOST = {"remaining_chars": SpecFn(_remaining_chars, "remaining_chars")}
+
+
+def lex_wf(E, v, o):
+    from pyvc import ext_C15_text as T
+
+    p, lo, hi = lx(v)
+    n = hi - lo
+    return z3.And(T.NCH >= 0, p >= 0, p <= T.NCH, n >= 0, n <= 1, z3.Implies(n == 1, z3.And(lo == p - 1, p >= 1)), z3.Implies(n == 0, p == T.NCH))
+
+
+LWF = ("lexer-state-wf", lex_wf)
+
+
+def same_reader(E, v, o):
+    return v["self"].fields["r"] is E.spec_extra["reader"] and set(v["self"].fields) == {"r", "lineno", "column", "next_char"}
+
+
+READER = ("reader-is-the-same-object-and-no-attribute-added", same_reader)
+
+
+def li(v, f):
+    return to_z3(v["self"].fields[f], "int")
+
+
+def counted(E, v, o, p0, p1, extra_lines=0):
+    """lineno / column after reading the characters p0 .. p1-1 one by one"""
+    from pyvc import ext_C15_text as T
+
+    return z3.And(li(v, "lineno") == li(o, "lineno") + T.NLC(p1) - T.NLC(p0) + extra_lines,
+                  li(v, "column") == z3.If(T.LNL(p1) >= p0, p1 - T.LNL(p1), li(o, "column") + p1 - p0))
+
+
+def lex_defs(E, fr):
+    from pyvc import ext_C15_text as T
+
+    T.define_positions(E, BLANKS, DELIMS)
+
+
+def blank(c):
+    from pyvc import ext_C15_text as T
+
+    return T.in_set(c, BLANKS)
+
+
+def delim(c):
+    from pyvc import ext_C15_text as T
+
+    return T.in_set(c, DELIMS)
+
+
+def word_at(E, v, o, result):
+    """the word that starts at the first non-blank at or after the old look-ahead, and where the look-ahead stands afterwards"""
+    from pyvc import ext_C15_text as T
+
+    q0, q1 = la(o), la(v)
+    s = T.SKIP(q0)
+    return z3.If(s == T.NCH, z3.And(T.slen(result) == 0, q1 == T.NCH),
+                 z3.If(delim(T.CH(s)), z3.And(T.is_text(result, s, s + 1), q1 == s + 1),
+                       z3.And(T.is_text(result, s, T.WEND(s)), q1 == T.WEND(s))))
+
+
+def number_languages():
+    """language keys: the number test the code applies to a word (read from the repository), and the reference languages"""
+    from contracts import regex_facts as RF
+    from pyvc import ext_C15_text as T
+
+    (method, ptxt, fl), _ = RF.asc_patterns()
+    return dict(code=T.code_lang(ptxt, fl, method), asc=("ref", "ASC_NUMBER"), plain=("ref", "PLAIN_DECIMAL"), pyfloat=T.PY_FLOAT_LANG)
+
+
+def language_transfer(E, fr):
+    """inclusions between languages, each discharged as a regex obligation of this property, used on slices of the text"""
+    from pyvc import ext_C15_text as T
+
+    K = number_languages()
+    lo, hi, j = z3.Int("lt!lo"), z3.Int("lt!hi"), z3.Int("lt!j")
+    inl = lambda k: T.inl(K[k], lo, hi)
+    is_word = z3.And(lo < hi, z3.ForAll([j], z3.Implies(z3.And(j >= lo, j < hi), z3.Not(delim(T.CH(j))))))
+    facts = [
+        ("number-token-is-entirely-a-number", z3.Implies(z3.And(inl("code"), is_word, inl("pyfloat")), inl("asc")), [inl("code")]),
+        ("plain-decimal-numbers-are-numbers", z3.Implies(inl("plain"), inl("code")), [inl("plain")]),
+        ("asc-number-converts", z3.Implies(inl("asc"), inl("pyfloat")), [inl("asc")]),
+        ("plain-decimal-is-an-asc-number", z3.Implies(inl("plain"), inl("asc")), [inl("plain")]),
+    ]
+    for lab, body, pats in facts:
+        E.assume(z3.ForAll([lo, hi], body, patterns=pats))
+        E.assumptions.add(f"language transfer: the inclusion proved as obligation C15/regex/{lab} is used for every slice text[lo:hi) of the document")
+
+
+def register_lexer_chars(R):
+    from pyvc import ext_C15_text as T
+
+    T.install()
+    fresh_str = lambda name: (lambda S, frame: T.SStr.fresh(S.eng, name))
+
+    # ------------------------------------------------------------- __init__
+    def init_setup(S):
+        from swcgeom.transforms.neurolucida_asc import Lexer
+
+        r = T.CharStream(z3.IntVal(0))
+        S.assume(T.NCH >= 0)
+        S.assume(z3.And(T.NLC(0) == 0, T.LNL(0) == -1))
+        S.eng.assumptions.add(T.A_COUNT)
+        return dict(self=S.obj(Lexer), r=r, __ghost__=dict(reader=r, **LEXGHOST))
+
+    R.add(LEX + "__init__", prop="C15", setup=init_setup,
+          ensures=[LWF, READER, ("look-ahead-is-the-first-character", lambda E, v, o: la(v) == z3.If(T.NCH > 0, 0, T.NCH)),
+                   ("position-starts-at-1:1", lambda E, v, o: z3.And(li(v, "lineno") == 1, li(v, "column") == 1))],
+          notes="abstract character stream with the cursor at 0")
+
+    # ----------------------------------------------------------- _read_char
+    def char_read(E, v, o):
+        p0, _, _ = lx(o)
+        p1, lo, hi = lx(v)
+        res = to_z3(v["result"], "bool")
+        nl = T.CH(p0) == T.NEWLINE
+        return z3.If(p0 < T.NCH,
+                     z3.And(res, p1 == p0 + 1, lo == p0, hi == p0 + 1, T.count_step(p0),
+                            li(v, "lineno") == li(o, "lineno") + z3.If(nl, 1, 0), li(v, "column") == z3.If(nl, 1, li(o, "column") + 1)),
+                     z3.And(z3.Not(res), p1 == p0, hi == lo, li(v, "lineno") == li(o, "lineno"), li(v, "column") == li(o, "column")))
+
+    R.add(LEX + "_read_char", prop="C15", setup=lexer_sym_setup, requires=[LWF], modifies=["self"], returns="bool",
+          ensures=[LWF, READER,
+                   ("consumes-exactly-one-character-or-nothing-at-the-end-and-counts-the-line-break", char_read)],
+          notes="abstract character stream")
+
+    # ----------------------------------------------------------- _read_word
+    def skipped(E, v, o, entry=None):
+        j = z3.Int(fresh_name("j"))
+        q0, q = la(o), la(v)
+        return z3.ForAll([j], z3.Implies(z3.And(j >= q0, j < q), blank(T.CH(j))))
+
+    def book(E, v, o, entry=None):
+        return counted(E, v, o, lx(o)[0], lx(v)[0])
+
+    def token_so_far(E, v, o, entry=None):
+        s, q = la(entry), la(v)
+        return z3.And(s == T.SKIP(la(o)), q >= s, T.is_text(v["token"], s, q))
+
+    def token_chars(E, v, o, entry=None):
+        j = z3.Int(fresh_name("j"))
+        s, q = la(entry), la(v)
+        return z3.ForAll([j], z3.Implies(z3.And(j >= s, j < q), z3.Not(delim(T.CH(j)))))
+
+    R.add(LEX + "_read_word", prop="C15", setup=lexer_sym_setup, requires=[LWF], modifies=["self"], returns=fresh_str("word"), lemmas=[lex_defs],
+          ensures=[LWF, READER,
+                   ("skips-the-blanks-then-returns-one-delimiter-or-the-maximal-run-of-non-delimiters-and-stops-right-behind-it",
+                    lambda E, v, o: word_at(E, v, o, v["result"])),
+                   ("position-counts-the-characters-read", book)],
+          loops={0: dict(invariant=[LWF, READER, ("look-ahead-never-moves-back", lambda E, v, o: la(v) >= la(o)), ("only-blanks-skipped", skipped), ("position-counts-the-characters-read", book)],
+                         decreases="remaining_chars(self)"),
+                 1: dict(invariant=[LWF, READER, ("token-is-the-text-from-the-first-non-blank-to-the-look-ahead", token_so_far),
+                                    ("no-delimiter-in-the-token-so-far", token_chars), ("position-counts-the-characters-read", book)],
+                         rebind={"token": lambda eng, cur: T.SStr.fresh(eng, "token")}, decreases="remaining_chars(self)")},
+          notes="abstract character stream; symbolic number of blanks and symbolic word length")
+
+    # ----------------------------------------------------------- _read_line
+    def line_read(E, v, o):
+        q0 = la(o)
+        e = T.EOL(q0)
+        return z3.And(T.is_text(v["result"], q0, e), la(v) == z3.If(e < T.NCH, e + 1, T.NCH))
+
+    R.add(LEX + "_read_line", prop="C15", setup=lexer_sym_setup, requires=[LWF], modifies=["self"], returns=fresh_str("line"), lemmas=[lex_defs],
+          ensures=[LWF, READER,
+                   ("returns-the-rest-of-the-line-and-consumes-exactly-through-its-line-break-and-nothing-after-it", line_read),
+                   ("starts-a-new-line", lambda E, v, o: z3.And(li(v, "lineno") == li(o, "lineno") + 1, li(v, "column") == 1))],
+          notes="abstract character stream; the comment text is text[q : first line break at or after q)")
+
+    # --------------------------------------------------------------- _token
+    def token_setup(S):
+        from swcgeom.transforms.neurolucida_asc import TokenType
+
+        d = lexer_sym_setup(S)
+        d.update(type=TokenType.LITERAL, value=T.SStr.fresh(S.eng, "value"))
+        return d
+
+    R.add(LEX + "_token", prop="C15", setup=token_setup, pure_inline=True,
+          ensures=[("token-carries-type-value-and-the-lexer-position",
+                    lambda E, v, o: v["result"].fields["type"] is v["type"] and v["result"].fields["value"] is v["value"]
+                    and z3.And(to_z3(v["result"].fields["lineno"], "int") == li(o, "lineno"), to_z3(v["result"].fields["column"], "int") == li(o, "column"))),
+                   ("lexer-untouched", lambda E, v, o: z3.And(*[a == b for a, b in zip(lx(v), lx(o))], li(v, "lineno") == li(o, "lineno"), li(v, "column") == li(o, "column")))])
+
+    # ------------------------------------------------------------- __next__
+    def tok(v):
+        return v["result"]
+
+    def ttype(v, name):
+        from swcgeom.transforms.neurolucida_asc import TokenType
+
+        return z3.BoolVal(isinstance(tok(v), Obj) and tok(v).fields["type"] is TokenType[name])
+
+    def tval_text(v, lo, hi):
+        val = tok(v).fields["value"]
+        return T.is_text(val, lo, hi) if isinstance(val, (str, T.SStr)) else z3.BoolVal(False)
+
+    def start(o):
+        return T.SKIP(la(o))
+
+    def single_char_tokens(E, v, o):
+        s = start(o)
+        c = T.CH(s)
+        one = lambda ch, name: z3.Implies(c == ord(ch), z3.And(ttype(v, name), tval_text(v, s, s + 1), la(v) == s + 1))
+        return z3.And(s < T.NCH, one("(", "BRACKET_LEFT"), one(")", "BRACKET_RIGHT"), one("|", "OR"))
+
+    def comment_token(E, v, o):
+        s = start(o)
+        e = T.EOL(s + 1)
+        return z3.Implies(T.CH(s) == ord(";"), z3.And(ttype(v, "COMMENT"), tval_text(v, s + 1, e), la(v) == z3.If(e < T.NCH, e + 1, T.NCH)))
+
+    def word_token(E, v, o):
+        s = start(o)
+        e = T.WEND(s)
+        K = number_languages()
+        val = tok(v).fields["value"]
+        is_float = z3.And(ttype(v, "FLOAT"), T.inl(K["asc"], s, e), (to_z3(val, "real") == T.FVAL(s, e)) if kind_of_real(val) else z3.BoolVal(False))
+        is_lit = z3.And(ttype(v, "LITERAL"), tval_text(v, s, e))
+        return z3.Implies(z3.Not(delim(T.CH(s))), z3.And(la(v) == e, z3.Or(is_float, is_lit), z3.Implies(T.inl(K["plain"], s, e), ttype(v, "FLOAT"))))
+
+    def kind_of_real(val):
+        from pyvc.values import kind_of
+
+        return kind_of(val) in ("real", "int")
+
+    def next_book(E, v, o):
+        s = start(o)
+        p0, p1 = lx(o)[0], lx(v)[0]
+        is_comment = T.CH(s) == ord(";")
+        pw = z3.If(s + 2 <= T.NCH, s + 2, T.NCH)  # reader cursor after the ';' became a word of its own
+        t = tok(v)
+        return z3.And(z3.If(is_comment, z3.And(li(v, "lineno") == li(o, "lineno") + T.NLC(pw) - T.NLC(p0) + 1, li(v, "column") == 1), counted(E, v, o, p0, p1)),
+                      to_z3(t.fields["lineno"], "int") == li(v, "lineno"), to_z3(t.fields["column"], "int") == li(v, "column"))
+
+    def not_a_number(E, v, o):
+        s = start(o)
+        K = number_languages()
+        return z3.And(s < T.NCH, z3.Not(delim(T.CH(s))), z3.Not(T.inl(K["asc"], s, T.WEND(s))))
+
+    R.add(LEX + "__next__", prop="C15", setup=lexer_sym_setup, requires=[LWF], modifies=["self"], lemmas=[lex_defs, language_transfer],
+          raises={"StopIteration": ("only-when-nothing-but-blanks-is-left", lambda E, v, o: start(o) == T.NCH),
+                  "ValueError": ("only-for-a-word-that-is-not-a-decimal-number", not_a_number)},
+          ensures=[LWF, READER,
+                   ("open-close-and-bar-are-tokens-of-their-own", single_char_tokens),
+                   ("comment-token-is-the-rest-of-the-line-and-the-next-token-starts-right-behind-its-line-break", comment_token),
+                   ("word-token-is-the-WHOLE-maximal-run-of-non-delimiters-FLOAT-iff-it-is-a-number-with-its-value", word_token),
+                   ("token-position-is-the-lexer-position-which-counts-the-characters-read", next_book)],
+          notes="abstract character stream: the token and the new look-ahead are functions of the text from the old look-ahead on; "
+                "number test and float() through their languages (regex obligations C15/regex/*)")
+
+
+# ===========================================================================
 # Part 3: the Lexer on concrete short inputs (EFFECTIVELY BOUNDED: concrete strings, run through the same interpreter)
 # expected = (TokenType name, value, unread rest incl. the look-ahead char) | "MALFORMED" | "StopIteration"
 # MALFORMED = a word that starts like a number but is not one: it must never come back as a FLOAT token (the lexer may raise
@@ -669,12 +969,14 @@ def register_lexer(R):
           ensures=[("token-type-and-value-of-the-WHOLE-word", token_ok),
                    ("cursor-just-after-the-token", lambda E, v, o: (isinstance(expect(E), tuple) and unread(E, v) == expect(E)[2])
                     or (expect(E) == "MALFORMED" and unread(E, v) == LEX_CASES[E.variant][0][len(LEX_CASES[E.variant][0].split()[0].rstrip(")")):]))],
+          options=dict(registry={}),  # concrete text: the real helpers are executed (inlined), not used through their character-level contracts
           notes="EFFECTIVELY BOUNDED: 19 concrete inputs (numbers, malformed numbers, brackets, bar, comments, literals, end of input); "
                 "regex matching and float() run natively on the concrete word")
 
     R.add(LEX + "_read_word", prop="C15", variants={k: lexer_setup(t) for k, (t, _) in WORD_CASES.items()},
           ensures=[("maximal-run-of-non-delimiters-or-one-delimiter", lambda E, v, o: v["result"] == WORD_CASES[E.variant][1][0]),
                    ("cursor-advanced-by-exactly-the-blanks-and-the-word", lambda E, v, o: unread(E, v) == WORD_CASES[E.variant][1][1])],
+          options=dict(registry={}),
           notes="EFFECTIVELY BOUNDED: 10 concrete inputs covering every delimiter")
 
 
@@ -804,6 +1106,7 @@ def register(R):
     register_acceptance(R)
     register_walk(R)
     register_astnode(R)
+    register_lexer_chars(R)
     register_lexer(R)
 
 
